@@ -716,14 +716,19 @@ impl WorldC {
     /// The group reports "start of block" for the proposal's height, so ballots and total may disagree (the
     /// known C06 deviation) — what is examined here is everything downstream of that state.
     fn gen_reweight_race(&mut self, rng: &mut Rng) -> Option<Step> {
-        if self.is_stake || self.races_done >= 2 {
+        if self.races_done >= 2 || self.users.len() < 3 {
             return None;
         }
         let m = self.msigs.iter().find(|m| m.flex)?.clone();
-        let admin = self.last_group_obs.as_ref().and_then(|o| o.admin.clone())?;
-        if self.chain.label_of(&admin).is_some() || self.users.len() < 3 {
-            return None;
-        }
+        let admin = if self.is_stake {
+            String::new()
+        } else {
+            let a = self.last_group_obs.as_ref().and_then(|o| o.admin.clone())?;
+            if self.chain.label_of(&a).is_some() {
+                return None;
+            }
+            a
+        };
         self.races_done += 1;
         let n = (3 + rng.below(2) as usize).min(self.users.len());
         let who: Vec<String> = self.users.iter().take(n).cloned().collect();
@@ -740,9 +745,33 @@ impl WorldC {
         let (first, second) = if rng.chance(3, 4) { (heavy, light) } else { (light, heavy) };
         let members = |ws: &[u64]| -> Vec<Value> { who.iter().zip(ws).map(|(a, w)| json!({"addr": a, "weight": w})).collect() };
         let mut seq: Vec<Step> = vec![];
-        seq.push(tx(&admin, "group", json!({"update_members":{"add": members(&first), "remove": []}}), vec![]));
-        seq.push(Step::Block { dh: 1, dt: self.cfg.spb, dn: 0 });
-        seq.push(tx(&admin, "group", json!({"update_members":{"add": members(&second), "remove": []}}), vec![]));
+        if self.is_stake {
+            // the same by staking: everybody bonds `first` weights, then moves to `second` right before the proposal
+            let (tpw, _, _) = self.stake_cfg.unwrap_or((1, 1, cw_utils::Duration::Height(1)));
+            let bond = |u: &str, amt: u128, w: &WorldC| -> Step {
+                if w.stake_cw20 {
+                    let msg = json!({"send":{"contract": w.group, "amount": amt.to_string(), "msg": Binary::from(br#"{"bond":{}}"#.to_vec()).to_base64()}});
+                    tx(u, "token", msg, vec![])
+                } else {
+                    tx(u, "group", json!({"bond":{}}), vec![(STAKE_DENOM.to_string(), amt.to_string())])
+                }
+            };
+            for (u, w) in who.iter().zip(&first) {
+                seq.push(bond(u, tpw.saturating_mul(*w as u128), self));
+            }
+            seq.push(Step::Block { dh: 1, dt: self.cfg.spb, dn: 0 });
+            for ((u, a), b) in who.iter().zip(&first).zip(&second) {
+                if b > a {
+                    seq.push(bond(u, tpw.saturating_mul((*b - *a) as u128), self));
+                } else if a > b {
+                    seq.push(tx(u, "group", json!({"unbond":{"tokens": tpw.saturating_mul((*a - *b) as u128).to_string()}}), vec![]));
+                }
+            }
+        } else {
+            seq.push(tx(&admin, "group", json!({"update_members":{"add": members(&first), "remove": []}}), vec![]));
+            seq.push(Step::Block { dh: 1, dt: self.cfg.spb, dn: 0 });
+            seq.push(tx(&admin, "group", json!({"update_members":{"add": members(&second), "remove": []}}), vec![]));
+        }
         let payload = self.gen_payload(rng, &m);
         let mut funds: Vec<(String, String)> = vec![];
         if let Some(d) = &m.deposit {
